@@ -239,6 +239,22 @@ def case_epoch(mon, planet, jde):
     mon.check("epoch-unchanged", e.jde() == jd, case)
 
 
+def origin_crossing(planet, j0):
+    """An epoch after j0 where the planet's heliocentric longitude passes
+    360 -> 0 (located with the library's own geometric longitude)."""
+    from pymeeus.Epoch import Epoch
+    mod, cls = get(planet)
+    rate = 360.0 / PERIOD[planet]
+    j = j0
+    for _ in range(6):
+        L = cls.geometric_heliocentric_position(Epoch(j), tofk5=False)[0]()
+        d = (360.0 - L) if _ == 0 else -wrap(L)
+        j += d / rate
+        if abs(d) < 1e-7:
+            break
+    return j
+
+
 def case_tables(mon, planet, jde, sv):
     """vsop_pos() is public and takes the tables from the caller: truncated
     temporaries, a caller-owned copy that is edited in place between calls,
@@ -409,6 +425,18 @@ def run(mon, spec):
             if k % 8 == 0:
                 mon.begin("second", [planet, jd])
                 case_second(mon, planet, jd)
+            if k % 8 == 4:
+                # within an arc-minute of the 360 -> 0 passage, where the
+                # corrected longitudes are on either side of the origin
+                jc = origin_crossing(planet, jd)
+                if jd_of_year(-2000.0) <= jc <= jd_of_year(4000.0):
+                    rate = 360.0 / PERIOD[planet]
+                    for _q in range(3):
+                        jx = jc + rng.uniform(-70.0, 70.0) / 3600.0 / rate
+                        mon.begin("epoch", [planet, jx])
+                        case_epoch(mon, planet, jx)
+                        mon.cls("within-70arcsec-of-longitude-origin",
+                                ("origin", planet, jx), [planet, jx])
             if k % 16 == 0:
                 sv = rng.randrange(1 << 30)
                 mon.begin("tables", [planet, jd, sv])
